@@ -49,7 +49,6 @@ Judge(e) ==
         \cup LayoutFails(e, env)
       drift ==
         If(~(e.enc_v.ok /\ P.ok) \/ Enc(P.v, e.s, env) = wire, "writer-layout-not-single-block")
-        \cup If(~e.enc_v.ok \/ e.enc_v.n = Len(wire), "returned-count-differs")
   IN [fail |-> fail, drift |-> drift]
 
 Init == l = 1
